@@ -2,7 +2,7 @@
    A history is a list of snippets fed to ONE interpreter.  DEFINITIONS ONLY.
 
    names:   g0 g1 (number globals), f0 f1 (functions reading a global when CALLED), C0 C1 (classes),
-            c (a closure over a local), mg mb mm ms mn (aliases of the five modules)
+            c (a closure over a local), fw (a fiber), mg mb mm ms mn (aliases of the five modules)
    modules: good = `var v = 10; print("load good");`      bad  = `var v = 5; print("load bad"); throw 9;`
             syn  = `var = ;`   nest = `import "bad" as b; var v = 1;`   missing = not served by the loader *)
 From Coq Require Import List Bool Arith ZArith NArith String Ascii.
@@ -13,6 +13,9 @@ Local Open Scope string_scope.
 Inductive modk := MGood | MThrow | MMissing | MSyntax | MNest.
 
 (* where an uncaught error is raised *)
+Inductive idx := I0 | I1.
+Definition idx_nat (i : idx) : nat := match i with I0 => 0 | I1 => 1 end.
+
 Inductive depth := D1 | D2 | D3.
 Definition depth_nat (d : depth) : nat := match d with D1 => 1 | D2 => 2 | D3 => 3 end.
 
@@ -28,23 +31,25 @@ Inductive where_ :=
 | WClassDefNested      (* the same inside a call *)
 | WCapture             (* a closure over a local of the failing frame was stored in global c *)
 | WBuiltin             (* built-in error (nil.foo) inside try/finally *)
-| WCaptureFiber.       (* like WCapture, but the error is raised in a fiber CALLED by the capturing frame *)
+| WCaptureFiber        (* like WCapture, but the error is raised in a fiber CALLED by the capturing frame *)
+| WFiberWait.          (* global fw = a fiber that is waiting for the fiber whose uncaught error ends the run *)
 
 Inductive snip :=
-| SnVar (g : nat) (z : Z)
-| SnPrint (g : nat)
-| SnFn (f g : nat)
-| SnCall (f : nat)
-| SnClass (c : nat) (z : Z)
-| SnUse (c : nat)
+| SnVar (g : idx) (z : Z)
+| SnPrint (g : idx)
+| SnFn (f g : idx)
+| SnCall (f : idx)
+| SnClass (c : idx) (z : Z)
+| SnUse (c : idx)
 | SnSyntax (pre : bool)
-| SnThrow (w : where_) (d : option (nat * Z))   (* optional `var g = z;` completed before the failure *)
+| SnThrow (w : where_) (d : option (idx * Z))   (* optional `var g = z;` completed before the failure *)
 | SnTryFin
 | SnTryCatch
 | SnFiberOk
 | SnCaptureOk
 | SnRange (k : depth)
 | SnUseLeak
+| SnUseFiber                                   (* print(fw.has_finished()); *)
 | SnImport (m : modk)
 | SnUseMod (m : modk)
 | SnReset.
@@ -52,9 +57,9 @@ Inductive snip :=
 Definition history := list snip.
 
 (* ---------- names ---------- *)
-Definition gname_s (g : nat) : string := "g" ++ show_nat g.
-Definition fname_s (f : nat) : string := "f" ++ show_nat f.
-Definition cname_s (c : nat) : string := "C" ++ show_nat c.
+Definition gname_s (g : idx) : string := "g" ++ show_nat (idx_nat g).
+Definition fname_s (f : idx) : string := "f" ++ show_nat (idx_nat f).
+Definition cname_s (c : idx) : string := "C" ++ show_nat (idx_nat c).
 Definition mod_path (m : modk) : string :=
   match m with MGood => "good" | MThrow => "bad" | MMissing => "missing" | MSyntax => "syn" | MNest => "nest" end.
 Definition mod_alias (m : modk) : string :=
@@ -87,6 +92,7 @@ Definition render_where (w : where_) : string :=
   | WCapture => "var c = nil; (|| { var x = 41; c = || x; throw 1; })();"
   | WBuiltin => "try { nil.foo; } finally { print(""nf""); }"
   | WCaptureFiber => "var c = nil; (|| { var x = 41; c = || x; Fiber.new(|| { throw 1; }).call(); })();"
+  | WFiberWait => "var fw = Fiber.new(|| { Fiber.new(|| { throw 1; }).call(); }); fw.call();"
   end.
 
 Definition render (s : snip) : string :=
@@ -106,6 +112,7 @@ Definition render (s : snip) : string :=
   | SnCaptureOk => "var c = nil; (|| { var x = 42; c = || x; })();"
   | SnRange k => "for i in 0.." ++ show_nat (depth_nat k) ++ " { print(i); }"
   | SnUseLeak => "print(c());"
+  | SnUseFiber => "print(fw.has_finished());"
   | SnImport m => "import """ ++ mod_path m ++ """ as " ++ mod_alias m ++ "; print(" ++ mod_alias m ++ ".v);"
   | SnUseMod m => "print(" ++ mod_alias m ++ ".v);"
   | SnReset => "RESET"
@@ -132,27 +139,29 @@ Definition where_of_N (n : N) : where_ :=
   match n with
   | 0%N => WTop | 1%N => WNested D1 | 2%N => WNested D2 | 3%N => WNested D3 | 4%N => WFiber | 5%N => WTryFinally
   | 6%N => WCatch | 7%N => WFinally | 8%N => WFinallyRet | 9%N => WClassDef | 10%N => WClassDefNested
-  | 11%N => WCapture | 12%N => WBuiltin | _ => WCaptureFiber
+  | 11%N => WCapture | 12%N => WBuiltin | 13%N => WCaptureFiber | _ => WFiberWait
   end.
 Definition z_of_wire (n : N) : Z := (Z.of_N n - 100)%Z.
+Definition idx_of_N (n : N) : idx := match n with 0%N => I0 | _ => I1 end.
 
 Definition snip_of_group (g : list N) : snip :=
   match g with
-  | [0%N; a; z] => SnVar (N.to_nat a) (z_of_wire z)
-  | [1%N; a] => SnPrint (N.to_nat a)
-  | [2%N; f; a] => SnFn (N.to_nat f) (N.to_nat a)
-  | [3%N; f] => SnCall (N.to_nat f)
-  | [4%N; c; z] => SnClass (N.to_nat c) (z_of_wire z)
-  | [5%N; c] => SnUse (N.to_nat c)
+  | [0%N; a; z] => SnVar (idx_of_N a) (z_of_wire z)
+  | [1%N; a] => SnPrint (idx_of_N a)
+  | [2%N; f; a] => SnFn (idx_of_N f) (idx_of_N a)
+  | [3%N; f] => SnCall (idx_of_N f)
+  | [4%N; c; z] => SnClass (idx_of_N c) (z_of_wire z)
+  | [5%N; c] => SnUse (idx_of_N c)
   | [6%N; p] => SnSyntax (negb (N.eqb p 0))
   | [7%N; w] => SnThrow (where_of_N w) None
-  | [7%N; w; a; z] => SnThrow (where_of_N w) (Some (N.to_nat a, z_of_wire z))
+  | [7%N; w; a; z] => SnThrow (where_of_N w) (Some (idx_of_N a, z_of_wire z))
   | [8%N] => SnTryFin
   | [9%N] => SnTryCatch
   | [10%N] => SnFiberOk
   | [11%N] => SnCaptureOk
   | [12%N; k] => SnRange (match k with 1%N => D1 | 2%N => D2 | _ => D3 end)
   | [13%N] => SnUseLeak
+  | [17%N] => SnUseFiber
   | [14%N; m] => SnImport (modk_of_N m)
   | [15%N; m] => SnUseMod (modk_of_N m)
   | _ => SnReset
